@@ -84,6 +84,9 @@ type Config struct {
 
 	// I/O error injection: the n-th (1-based) effectful simos operation fails with the errno.
 	IOErrAt map[int]int
+	// IOErrFrom > 0: a full disk - from the n-th simos operation on, every operation that
+	// creates or writes fails with ENOSPC.
+	IOErrFrom int
 	// IOErrPerMille > 0 additionally draws random I/O errors from the Fault tape.
 	IOErrPerMille int
 
